@@ -256,6 +256,7 @@ func runC20(c *core.Ctx) {
 	saml.RandReader = &lockedReader{r: fx.NewRecReader(c.Seed)}
 	c20Stress(c)
 	c20Linearizability(c)
+	c20SingleWriter(c)
 	c20Deadlock(c)
 }
 
@@ -782,5 +783,163 @@ func c20Post(d *core.DriveState) {
 	}
 	if harnessOnly > 0 {
 		d.Broken = append(d.Broken, fmt.Sprintf("%d race reports involve only harness code", harnessOnly))
+	}
+}
+
+// c20SingleWriter is a second linearizability monitor, for long histories that porcupine could not search: one writer
+// changes the store step by step (every value unique), so the sequence of store states S_0..S_M is known exactly, and
+// any number of readers call List and Get the whole time. A reader notes lo = number of writer operations completed
+// before its call and hi = number begun when its call returned; linearizability then requires its result to equal
+// S_j for some lo <= j <= hi. The check is exact for single-writer histories and costs O(hi-lo) per read.
+func c20SingleWriter(c *core.Ctx) {
+	rounds := c.Pick(6, 60) / c.NShards
+	if rounds == 0 {
+		rounds = 1
+	}
+	steps := c.Pick(30000, 150000)
+	keys := []string{"/w/a", "/w/b", "/w/c", "/w/d"}
+	for round := 0; round < rounds; round++ {
+		ms := &samlidp.MemoryStore{}
+		// plan the writer and the resulting states
+		type wop struct {
+			put bool
+			key int
+			val string
+		}
+		plan := make([]wop, steps)
+		states := make([][4]string, steps+1) // value per key, "" = absent
+		cur := [4]string{}
+		// two regimes alternate: "token" (put the next key, then delete the previous one: never empty, and the reverse:
+		// never two) and free random updates
+		tok := 0
+		for i := 0; i < steps; {
+			states[i] = cur
+			switch (i / 2000) % 3 {
+			case 0: // put next, delete previous
+				nx := (tok + 1) % 4
+				plan[i] = wop{true, nx, fmt.Sprintf("v%d", i)}
+				cur[nx] = plan[i].val
+				i++
+				if i < steps {
+					states[i] = cur
+					plan[i] = wop{false, tok, ""}
+					cur[tok] = ""
+					i++
+				}
+				tok = nx
+			case 1: // delete previous, put next
+				nx := (tok + 1) % 4
+				plan[i] = wop{false, tok, ""}
+				cur[tok] = ""
+				i++
+				if i < steps {
+					states[i] = cur
+					plan[i] = wop{true, nx, fmt.Sprintf("v%d", i)}
+					cur[nx] = plan[i].val
+					i++
+				}
+				tok = nx
+			default:
+				k := c.Rng.Intn(4)
+				if cur[k] != "" && c.Rng.Intn(2) == 0 {
+					plan[i] = wop{false, k, ""}
+					cur[k] = ""
+				} else {
+					plan[i] = wop{true, k, fmt.Sprintf("v%d", i)}
+					cur[k] = plan[i].val
+				}
+				i++
+			}
+		}
+		states[steps] = cur
+		listOf := func(st [4]string) string {
+			var l []string
+			for k, v := range st {
+				if v != "" {
+					l = append(l, strings.TrimPrefix(keys[k], "/w/"))
+				}
+			}
+			return strings.Join(l, ",")
+		}
+		var begun, done atomic.Int64
+		var stop atomic.Bool
+		var mu sync.Mutex
+		var bads []string
+		var reads, overlapped atomic.Int64
+		var wg sync.WaitGroup
+		readers := 3 + c.Rng.Intn(3)
+		for r := 0; r < readers; r++ {
+			wg.Add(1)
+			go func(r int) {
+				defer wg.Done()
+				for n := 0; !stop.Load(); n++ {
+					lo := done.Load()
+					var got string
+					isList := (n+r)%3 != 0
+					k := (n / 3) % 4
+					if isList {
+						l, _ := ms.List("/w/")
+						sort.Strings(l)
+						got = strings.Join(l, ",")
+					} else {
+						var v string
+						if err := ms.Get(keys[k], &v); err == nil {
+							got = v
+						}
+					}
+					hi := begun.Load()
+					ok := false
+					for j := lo; j <= hi && !ok; j++ {
+						if isList {
+							ok = listOf(states[j]) == got
+						} else {
+							ok = states[j][k] == got
+						}
+					}
+					reads.Add(1)
+					if hi > lo {
+						overlapped.Add(1)
+					}
+					if !ok {
+						mu.Lock()
+						if len(bads) < 5 {
+							what := fmt.Sprintf("Get(%s)=%q", keys[k], got)
+							if isList {
+								what = fmt.Sprintf("List(/w/)=[%s]", got)
+							}
+							var window []string
+							for j := lo; j <= hi && j < lo+6; j++ {
+								window = append(window, "{"+listOf(states[j])+"}")
+							}
+							bads = append(bads, fmt.Sprintf("%s is none of the store states that existed during the call (writer operations %d..%d: %s)", what, lo, hi, strings.Join(window, " ")))
+						}
+						mu.Unlock()
+					}
+				}
+			}(r)
+		}
+		for i, op := range plan {
+			begun.Store(int64(i + 1))
+			if op.put {
+				_ = ms.Put(keys[op.key], op.val)
+			} else {
+				_ = ms.Delete(keys[op.key])
+			}
+			done.Store(int64(i + 1))
+			if i%64 == 0 {
+				runtime.Gosched()
+			}
+		}
+		stop.Store(true)
+		wg.Wait()
+		c.EvalN(reads.Load())
+		c.CountN("single_writer_reads_checked", reads.Load())
+		c.CountN("single_writer_reads_overlapping_a_write", overlapped.Load())
+		if overlapped.Load() > 0 {
+			c.Nontrivial(fmt.Sprintf("single-writer round %d shard %d", round, c.Shard))
+		}
+		for _, b := range bads {
+			c.Violation("C20/linearizability/single-writer-snapshot", b, map[string]any{"round": round, "readers": readers, "steps": steps})
+		}
 	}
 }
